@@ -45,6 +45,34 @@ def oracle_schedule(n, bs, ep, mi, has_cb, stops):
     return out
 
 
+def oracle_life(n, ops):
+    """documented life cycle (first principles, independent of fairlearn and of the Lean model):
+    predict before any fit -> NotFittedError; the first partial_fit builds the models, later ones continue;
+    fit builds new models unless warm_start is set and models exist; n_iter_ = steps of the last fit.
+    Returns per-op tokens `res:engines:n_iter:current engine/steps it has seen` and the slices of the current engine."""
+    built, cur, slices, n_iter = 0, None, [], None
+    out = []
+    for op in ops:
+        res = "ok"
+        if op["op"] == "predict":
+            if cur is None:
+                res = "notfitted"
+        elif op["op"] == "pfit":
+            if cur is None:
+                built += 1
+                cur, slices = built, []
+            slices.append((op["lo"], op["hi"]))
+        else:
+            if not (op["warm"] and cur is not None):
+                built += 1
+                cur, slices = built, []
+            plan = oracle_schedule(n, op["bs"], op["ep"], op["mi"], False, [])
+            slices += [(lo, hi) for lo, hi, _, _ in plan]
+            n_iter = len(plan)
+        out.append(f"{res}:{built}:{'x' if n_iter is None else n_iter}:" + ("x" if cur is None else f"{cur}/{len(slices)}"))
+    return out, (None if cur is None else list(slices))
+
+
 def _labels(style, idx):
     if style == "str":
         return ["k" + "abcdefg"[i] for i in idx]
@@ -52,6 +80,39 @@ def _labels(style, idx):
 
 
 _ENGINE = {}
+
+# sha256 of the DEFINITIONS (doc comments and blank lines stripped) of lean/FairModel/Generated/AdvScheduleSrc.lean as
+# lifted from the pinned tree.  While it matches, a model-vs-oracle disagreement is a bug of this machinery (exit 2);
+# after a source edit that changed the lifted configuration it is a broken tie (exit 1).
+PINNED_SRC_SHA256 = "2a6782c3963fb6a11e55dd01c69785874c9377aa8b68efd6fe5be320e2bc5775"
+_SRC_STATE = {}
+
+
+def src_fingerprint():
+    import hashlib
+    import os
+    from .. import leanrun
+    path = os.path.join(leanrun.LEAN, "FairModel", "Generated", "AdvScheduleSrc.lean")
+    with open(path) as f:
+        txt = leanrun.strip_comments(f.read())
+    body = "\n".join(ln.rstrip() for ln in txt.splitlines() if ln.strip())
+    return hashlib.sha256(body.encode()).hexdigest()
+
+
+def src_changed():
+    if "v" not in _SRC_STATE:
+        try:
+            _SRC_STATE["v"] = src_fingerprint() != PINNED_SRC_SHA256
+        except OSError:
+            _SRC_STATE["v"] = False
+    return _SRC_STATE["v"]
+
+
+def model_problem(msg):
+    if src_changed():
+        return Problem("correspondence", "the schedule interpreted from the LIFTED source departs from the documented one: "
+                       + msg, "C17.lifted_cfg")
+    return Problem("harness", msg)
 
 
 def recording_engine():
@@ -62,12 +123,19 @@ def recording_engine():
 
     class RecordingEngine(BackendEngine):
         LOG = []
+        GEN = 0          # engines constructed so far (every __setup of the estimator builds a new one)
 
         def __init__(self, base, X, Y, A):
             self.base = base
+            RecordingEngine.GEN += 1
+            self.gen = RecordingEngine.GEN
+            self.rows = []           # (lo, hi) of every train_step this engine has seen
 
         def train_step(self, X, Y, A):
             RecordingEngine.LOG.append((X, Y, A))
+            import numpy as np
+            r = [int(v) for v in np.asarray(X)[:, 0]]
+            self.rows.append((r[0], r[-1] + 1) if r == list(range(r[0], r[-1] + 1)) else ("?", r))
             return (0.0, 0.0)
 
         def evaluate(self, X):
@@ -83,14 +151,25 @@ class CHECK(Check):
     pid = "C17"
     technique = ("Lean 4 theorems over the Schedule model (nested fit loops = fold of single steps over the flat schedule; "
                  "step counts, slice cover, callback numbering, early stop; decision rules) + correspondence with a "
-                 "recording BackendEngine and with real PyTorch fit / partial_fit twins")
+                 "recording BackendEngine and with real PyTorch fit / partial_fit twins; translator tie: the schedule, stop rule, "
+                 "life-cycle latches and decision rules are LIFTED from the Python source (harness/lifters/adv_schedule.py -> "
+                 "Generated/AdvScheduleSrc.lean), interpreted by Model/SchedLifted.lean / SchedLife.lean, and the theorems are "
+                 "re-proved for the lifted text")
     level_text = ("Theorems (all n, batch_size, epochs, max_iter incl. -1, all stop predicates): steps = min(epochs*ceil(n/b), "
                   "max_iter); epochs=-1 gives exactly max_iter steps; each epoch's slices are consecutive, non-empty and cover "
                   "0..n; steps numbered 1,2,..; callbacks fire after every step except one exhausting max_iter; stop at first "
                   "True; the nested loops of fit equal the left fold of the single-step entry point over the scheduled "
                   "slices (n_iter_ = number of steps); predict returns a member of the class list (>= threshold -> larger "
                   "class; first arg-max). Tie: recorded train_step slices / callback calls vs the compiled model; real torch "
-                  "fit vs partial_fit twin compared bit for bit; predict vs _raw_predict through the rule.")
+                  "fit vs partial_fit twin compared bit for bit; predict vs _raw_predict through the rule. "
+                  "LIFTED configuration (rejection guard, batch-size / batches / epochs expressions incl. ceil, slice bounds, order of "
+                  "train_step / n_iter_ increment / max_iter test / callback block, stop accumulation `stop or result`, `return self` "
+                  "exits, shuffle placement, single train_step of partial_fit, >= threshold / first arg-max / identity rules): "
+                  "`lifted_cfg` proves it equal to the documented reference configuration and `src_*` re-prove step count, slice "
+                  "cover, callback numbering for ANY list of callbacks, first-True stop and fit = fold of partial_fit (also for the "
+                  "concrete projected-gradient step of C16) for the interpreter of the lifted text; life cycle (predict before fit "
+                  "rejected, first partial_fit sets up once, cold / warm fit, fit = partial_fit twin incl. set-up) over the lifted "
+                  "latch conditions.")
     design_ref = "DESIGN.md section 4, C17"
     quick_cases = 4000
     thorough_cases = 24000
@@ -104,14 +183,22 @@ class CHECK(Check):
             "binary/multiclass, predictor/adversary lists with 0-1 hidden layers, SGD or Adam, both constraints; rows are "
             "ordered so that EVERY scheduled slice has all classes' type_of_target and the first slice contains all classes "
             "(partial_fit's documented requirement); 'tie' variant: zero-initialised user modules with learning rate 0 so "
-            "outputs are exactly 0.5 / all equal. distinct = distinct case; non-trivial = at least 2 steps or a real-engine case")
+            "outputs are exactly 0.5 / all equal. life: call histories of 1-5 calls (fit cold / warm_start, partial_fit with or "
+            "without classes=, predict) on one estimator with the recording engine, n in 2..12. "
+            "distinct = distinct case; non-trivial = at least 2 steps / 2 calls or a real-engine case")
     explanation = ("theorems over the Lean model Schedule; correspondence: recorded slices and callback calls vs `sched.run` "
                    "and `sched.loop` of the compiled driver (exact), fit vs partial_fit twin weights (bit-equal), predict vs "
-                   "`sched.predbin/predmulti` on exactly converted raw outputs; oracle: closed-form schedule and the decision "
-                   "rule in Python, independent of fairlearn and of the Lean model")
+                   "`sched.predbin/predmulti` on exactly converted raw outputs; the same observations vs the interpreter of the "
+                   "LIFTED source (`schedsrc.fit` incl. the (callback, step) log, `schedsrc.predbin/predmulti`, `schedlife.run`); "
+                   "oracle: closed-form schedule, documented life cycle and the decision rule in Python, independent of fairlearn "
+                   "and of the Lean model. A model-vs-oracle disagreement is a HARNESS-ERROR only while Generated/AdvScheduleSrc.lean "
+                   "has the pinned content; after a source edit it is reported as broken tie `C17.lifted_cfg`.")
     trusted = ("torch determinism on CPU with one thread (fit vs twin compared bit for bit)",
                "string labels are mapped order-preservingly to integers before entering the model",
-               "the recording engine sees what a real engine would see (it is passed through the public backend= parameter)")
+               "the recording engine sees what a real engine would see (it is passed through the public backend= parameter)",
+               "harness/lifters/adv_schedule.py: Python ast -> SchedCfg record (int/bool expressions over + - * // ceil floor min max "
+               "== != < <= > >= and/or/not; statement roles found by data flow, everything else refused)",
+               "numpy slicing clips `X[lo:hi]` at the array end (only relevant if the source drops the `min`)")
     assumptions = ("shuffle=False", "every slice given to partial_fit has the data's type_of_target and the first slice "
                    "contains all classes (else fairlearn's transformers reject / re-fit)", "CPU, one thread")
 
@@ -189,9 +276,37 @@ class CHECK(Check):
                 "Xtest": [[str(F(rng.randint(-12, 12), 4)) for _ in range(d)] for _ in range(rng.randint(1, 6))],
                 "container": rng.choice(["ndarray", "ndarray", "pandas"])}
 
+    def _life_case(self, rng, tier):
+        """call histories: fit (cold / warm), partial_fit, predict in any order on one estimator (recording engine)"""
+        n = rng.randint(2, 12)
+        est = rng.choice(["classifier", "regressor", "base"])
+        ops = []
+        for _ in range(rng.choice([1, 2, 2, 3, 3, 4, 5])):
+            r = rng.random()
+            if r < 0.2:
+                ops.append({"op": "predict"})
+            elif r < 0.55:
+                w = rng.randint(2, n)
+                lo = rng.randint(0, n - w)
+                ops.append({"op": "pfit", "lo": lo, "hi": lo + w, "cg": rng.random() < 0.3})
+            else:
+                bs = rng.choice([-1, rng.randint(1, n), n + 1])
+                ep = rng.choice([1, 1, 2, -1])
+                mi = rng.choice([-1, -1, rng.randint(1, 5)])
+                if ep == -1 and mi == -1:
+                    mi = rng.randint(1, 5)
+                ops.append({"op": "fit", "bs": bs, "ep": ep, "mi": mi, "warm": rng.random() < 0.5})
+        return {"kind": "life", "n": n, "est": est, "ops": ops, "container": rng.choice(["ndarray", "ndarray", "pandas"])}
+
     def generate(self, rng, tier):
         while True:
-            yield self._sched_case(rng, tier) if rng.random() < 0.72 else self._real_case(rng, tier)
+            r = rng.random()
+            if r < 0.62:
+                yield self._sched_case(rng, tier)
+            elif r < 0.74:
+                yield self._life_case(rng, tier)
+            else:
+                yield self._real_case(rng, tier)
 
     def exhaustive(self, tier):
         for n in range(1, 9):
@@ -204,6 +319,20 @@ class CHECK(Check):
                                    "est": "base", "style": "int", "container": "ndarray"}
 
     def shrink(self, case):
+        if case["kind"] == "life":
+            ops = case["ops"]
+            for i in range(len(ops)):
+                if len(ops) > 1:
+                    yield dict(case, ops=ops[:i] + ops[i + 1:])
+            for i, op in enumerate(ops):
+                if op["op"] == "fit":
+                    for k, v in (("ep", 1), ("mi", -1), ("bs", -1)):
+                        if op[k] != v and not (k == "mi" and op["ep"] == -1):
+                            yield dict(case, ops=ops[:i] + [dict(op, **{k: v})] + ops[i + 1:])
+            for k, v in (("est", "base"), ("container", "ndarray")):
+                if case[k] != v:
+                    yield dict(case, **{k: v})
+            return
         if case["kind"] == "sched":
             for k, lo in (("n", 1), ("ep", 1), ("mi", 1), ("bs", 1)):
                 v = case[k]
@@ -410,7 +539,63 @@ class CHECK(Check):
                    if case["ykind"] != "continuous" else None)
         return out
 
+    def _impl_life(self, case):
+        import numpy as np
+        from sklearn.exceptions import NotFittedError
+        from fairlearn.adversarial import AdversarialFairnessClassifier, AdversarialFairnessRegressor
+        from fairlearn.adversarial._adversarial_mitigation import _AdversarialFairness
+        Eng = recording_engine()
+        Eng.LOG, Eng.GEN = [], 0
+        n = case["n"]
+        X = np.zeros((n, 2))
+        X[:, 0] = np.arange(n)
+        X[:, 1] = 0.5
+        if case["est"] in ("regressor", "base"):
+            y = [i + 0.5 for i in range(n)]
+            cls = AdversarialFairnessRegressor if case["est"] == "regressor" else _AdversarialFairness
+        else:
+            y = _labels("int", [i % 2 for i in range(n)])
+            cls = AdversarialFairnessClassifier
+        sf = [i + 0.25 for i in range(n)]
+        est = cls(backend=Eng, shuffle=False)
+        out = []
+
+        def box(vals, lo, hi, name):
+            if case["container"] == "pandas":
+                import pandas as pd
+                return pd.Series(vals[lo:hi], index=[f"r{i}" for i in range(lo, hi)], name=name)
+            return np.array(vals[lo:hi])
+
+        for op in case["ops"]:
+            res = "ok"
+            try:
+                if op["op"] == "predict":
+                    p = est.predict(X)
+                    if len(p) != n:
+                        res = "badshape"
+                elif op["op"] == "pfit":
+                    lo, hi = op["lo"], op["hi"]
+                    kw = {"classes": np.unique(np.array(y))} if op["cg"] else {}
+                    est.partial_fit(X[lo:hi], box(y, lo, hi, "y"), sensitive_features=box(sf, lo, hi, "sf"), **kw)
+                else:
+                    est.set_params(batch_size=op["bs"], epochs=op["ep"], warm_start=op["warm"])
+                    est.max_iter = op["mi"]
+                    est.fit(X, box(y, 0, n, "y"), sensitive_features=box(sf, 0, n, "sf"))
+            except NotFittedError:
+                res = "notfitted"
+            except ValueError:
+                res = "valueerror"
+            except Exception as e:  # noqa: BLE001  (any other exception kind is a result to judge)
+                res = type(e).__name__.lower()
+            eng = getattr(est, "backendEngine_", None)
+            ni = getattr(est, "n_iter_", None)
+            out.append(f"{res}:{Eng.GEN}:{'x' if ni is None else int(ni)}:" + ("x" if eng is None else f"{eng.gen}/{len(eng.rows)}"))
+        eng = getattr(est, "backendEngine_", None)
+        return {"ops": out, "slices": None if eng is None else [list(r) for r in eng.rows]}
+
     def impl(self, case):
+        if case["kind"] == "life":
+            return self._impl_life(case)
         return self._impl_sched(case) if case["kind"] == "sched" else self._impl_real(case)
 
     # ------------------------------------------------------------------------------------------ protocol
@@ -424,17 +609,38 @@ class CHECK(Check):
     def _has_cb(case):
         return bool(case["cbs"]) if case["kind"] == "sched" else bool(case["stops"])
 
+    @staticmethod
+    def _life_tokens(case):
+        t = []
+        for op in case["ops"]:
+            if op["op"] == "predict":
+                t.append("Q")
+            elif op["op"] == "pfit":
+                t.append(f"P:{op['lo']}:{op['hi']}:{proto.b(op['cg'])}")
+            else:
+                t.append(f"F:{case['n']}:{op['bs']}:{op['ep']}:{op['mi']}:{proto.b(op['warm'])}")
+        return " ".join(t)
+
     def lines(self, case, o):
+        if case["kind"] == "life":
+            return ["schedlife.run " + self._life_tokens(case)]
         args = f"{case['n']} {case['bs']} {case['ep']} {case['mi']} {proto.b(self._has_cb(case))} {proto.lst(self._stops(case))}"
-        ls = [f"sched.run {args}", f"sched.loop {args}"]
+        if case["kind"] == "sched":
+            cbtok = ";".join(proto.lst(sorted(set(c["stops"]))) for c in case["cbs"]) if case["cbs"] else "x"
+        else:
+            cbtok = proto.lst(sorted(set(case["stops"]))) if case["stops"] else "x"
+        ls = [f"sched.run {args}", f"sched.loop {args}",
+              f"schedsrc.fit {case['n']} {case['bs']} {case['ep']} {case['mi']} {cbtok}"]
         if case["kind"] == "real" and "raw" in o and case["ykind"] != "continuous":
             if all(v != "nan" for r in o["raw"] for v in r):
                 k = len(set(case["y"]))
                 cls = proto.lst([100 + i for i in range(k)])
                 if k == 2:
                     ls.append(f"sched.predbin {cls} 1/2 {','.join(r[0] for r in o['raw'])}")
+                    ls.append(f"schedsrc.predbin {cls} d {','.join(r[0] for r in o['raw'])}")
                 else:
                     ls.append(f"sched.predmulti {cls} {';'.join(','.join(r) for r in o['raw'])}")
+                    ls.append(f"schedsrc.predmulti {cls} {';'.join(','.join(r) for r in o['raw'])}")
         return ls
 
     # ------------------------------------------------------------------------------------------ judging
@@ -456,6 +662,8 @@ class CHECK(Check):
             return [Problem("correspondence", f"implementation crashed: {o}", "impl-total")]
         if o.get("diverged"):
             return []      # generated learning rate made training overflow to NaN: nothing to compare (tagged)
+        if case["kind"] == "life":
+            return self._judge_life(case, o, mo)
         probs = []
         has_cb, stops = self._has_cb(case), self._stops(case)
         want = oracle_schedule(case["n"], case["bs"], case["ep"], case["mi"], has_cb, stops)
@@ -474,6 +682,16 @@ class CHECK(Check):
                 wl = f"{len(want)} " + (",".join(f"{lo}:{hi}" for lo, hi, _, _ in want) if want else "-")
                 if mo[1] != wl:
                     probs.append(Problem("harness", f"nested-loop model {mo[1][:120]} vs oracle {wl[:120]}"))
+            # the interpreter of the configuration LIFTED from the source
+            ncb_m = len(case["cbs"]) if case["kind"] == "sched" else (1 if case["stops"] else 0)
+            if want == "err":
+                wsrc = "err"
+            else:
+                wcalls = [(i, k) for (_, _, k, fired) in want if fired for i in range(ncb_m)]
+                wsrc = (f"{len(want)} " + (",".join(f"{lo}:{hi}" for lo, hi, _, _ in want) if want else "-") + " "
+                        + (",".join(f"{i}:{k}" for i, k in wcalls) if wcalls else "-"))
+            if mo[2] != wsrc:
+                probs.append(model_problem(f"lifted-source schedule {mo[2][:160]} vs documented {wsrc[:160]}"))
         if case["kind"] == "sched":
             if want == "err":
                 if o.get("error") != "ValueError":
@@ -509,6 +727,12 @@ class CHECK(Check):
                                      f"(total {len(got_calls)} vs {len(exp_calls)})", "C17.callbacks"))
             if any(c[1] != c[2] for c in o["calls"]):
                 probs.append(Problem("property", "a callback was called with step != n_iter_", "C17.callbacks"))
+            if mo is not None and mo[2] not in ("err", "bad-op"):
+                isrc = (f"{o['n_iter']} " + (",".join(f"{lo}:{hi}" for lo, hi in got) if got else "-") + " "
+                        + (",".join(f"{c[0]}:{c[1]}" for c in o["calls"]) if o["calls"] else "-"))
+                if isrc != mo[2]:
+                    probs.append(Problem("correspondence", f"fit recorded {isrc[:160]}, the interpreter of the lifted source says {mo[2][:160]}",
+                                         "C17.src_fit_eq_fold_partial_fit"))
             return probs
         # ---- real engine ----
         steps = [k for _, _, k, _ in want]
@@ -517,6 +741,12 @@ class CHECK(Check):
         exp_calls = [k for (_, _, k, fired) in want if fired]
         if o["calls"] != exp_calls:
             probs.append(Problem("property", f"callback steps {o['calls']} vs documented {exp_calls}", "C17.callbacks"))
+        if mo is not None and mo[2] not in ("err", "bad-op"):
+            m_n, _m_sl, m_calls = mo[2].split(" ")
+            i_calls = ",".join(f"0:{k}" for k in o["calls"]) if o["calls"] else "-"
+            if str(o["n_iter"]) != m_n or i_calls != m_calls:
+                probs.append(Problem("correspondence", f"fit made {o['n_iter']} steps with callback calls {i_calls[:80]}, the interpreter "
+                                     f"of the lifted source says {m_n} steps, calls {m_calls[:80]}", "C17.src_fit_eq_fold_partial_fit"))
         if o["twin_error"]:
             probs.append(Problem("correspondence", f"partial_fit twin failed: {o['twin_error']}", "C17.twin-runs"))
         elif o["param_diffs"]:
@@ -550,14 +780,62 @@ class CHECK(Check):
             j = next(i for i in range(len(wantp)) if pred[i] != wantp[i])
             probs.append(Problem("property", f"row {j}: raw output {[str(F(v)) for v in raw[j]]} -> predict {pred[j]!r}, decision rule gives {wantp[j]!r}",
                                  "C17.predict_rule"))
-        if mo is not None and len(mo) >= 3:
-            ml = [labels_sorted[int(t) - 100] for t in mo[2].split(",")] if mo[2] not in ("bad-op", "-") else mo[2]
+        if mo is not None and len(mo) >= 5:
+            ml = [labels_sorted[int(t) - 100] for t in mo[3].split(",")] if mo[3] not in ("bad-op", "-") else mo[3]
             if ml != wantp:
                 probs.append(Problem("harness", f"model predict {str(ml)[:80]} vs oracle {str(wantp)[:80]}"))
+            ms = [labels_sorted[int(t) - 100] for t in mo[4].split(",")] if mo[4] not in ("bad-op", "-", "unmodelled") else mo[4]
+            if ms != wantp:
+                probs.append(model_problem(f"decision rule lifted from the source gives {str(ms)[:80]}, documented rule {str(wantp)[:80]}"))
+            if ms != list(pred) and isinstance(ms, list):
+                probs.append(Problem("correspondence", f"predict {str(list(pred))[:80]} vs lifted decision rule on the raw outputs {str(ms)[:80]}",
+                                     "C17.src_predict"))
+        return probs
+
+    def _judge_life(self, case, o, mo):
+        probs = []
+        want_ops, want_sl = oracle_life(case["n"], case["ops"])
+        fmt = lambda sl: "x" if sl is None else ("-" if not sl else ",".join(f"{a}:{b}" for a, b in sl))  # noqa: E731
+        if mo is not None:
+            wm = " ".join(want_ops) + " " + fmt(want_sl)
+            if mo[0] != wm:
+                probs.append(model_problem(f"life-cycle model {mo[0][:160]} vs documented {wm[:160]}"))
+        names = [op["op"] + ("(warm)" if op.get("warm") else "") for op in case["ops"]]
+        for i, (got, want) in enumerate(zip(o["ops"], want_ops)):
+            if got != want:
+                g, w = got.split(":"), want.split(":")
+                if g[0] != w[0]:
+                    what, rel = f"returned/raised `{g[0]}`, documented `{w[0]}`", "C17.predict_before_fit_rejected" if w[0] == "notfitted" else "C17.accepts"
+                elif g[1] != w[1] or g[3].split("/")[0] != w[3].split("/")[0]:
+                    what = f"{g[1]} model initialisations so far (current models: no. {g[3].split('/')[0]}), documented {w[1]} (no. {w[3].split('/')[0]})"
+                    rel = "C17.fit_warm_start_continues" if case["ops"][i].get("warm") else ("C17.fit_cold_start" if case["ops"][i]["op"] == "fit" else "C17.partial_fit_later_calls_continue")
+                elif g[2] != w[2]:
+                    what, rel = f"n_iter_ = {g[2]}, documented {w[2]}", "C17.n_iter"
+                else:
+                    what, rel = f"the current models have seen {g[3].split('/')[1]} training steps, documented {w[3].split('/')[1]}", "C17.fit_eq_partial_fit"
+                probs.append(Problem("property", f"call {i + 1} of {names}: {what}", rel))
+                break
+        else:
+            if o["slices"] is not None and want_sl is not None and [tuple(s) for s in o["slices"]] != want_sl:
+                probs.append(Problem("property", f"after {names} the current models were trained on rows {o['slices'][:8]}, documented {want_sl[:8]}",
+                                     "C17.fit_eq_partial_fit"))
+        if mo is not None and not probs:
+            im = " ".join(o["ops"]) + " " + fmt(None if o["slices"] is None else [tuple(s) for s in o["slices"]])
+            if im != mo[0]:
+                probs.append(Problem("correspondence", f"observed {im[:160]} vs life-cycle model {mo[0][:160]}", "C17.lifted_lifecycle"))
         return probs
 
     def signature(self, case, o):
         import json
+        if case["kind"] == "life":
+            ops = case["ops"]
+            tags = ["kind=life", f"life_ops={len(ops)}", f"est={case['est']}"]
+            seq = [op["op"] + ("_warm" if op.get("warm") else "") for op in ops]
+            for a, b in zip(seq, seq[1:]):
+                tags.append(f"life:{a}->{b}")
+            if seq and seq[0] == "predict":
+                tags.append("life:predict_first")
+            return json.dumps(case, sort_keys=True), len(ops) >= 2, tags
         tags = [f"kind={case['kind']}"]
         want = oracle_schedule(case["n"], case["bs"], case["ep"], case["mi"], self._has_cb(case), self._stops(case))
         nsteps = 0 if want == "err" else len(want)
